@@ -160,6 +160,16 @@ def run(ctx, p):
         unsupported = False
     refused = out["raised"] == "ValueError"
     ctx.check(out["raised"] in (None, "ValueError"), "refusal_iff_unsupported", detail=detail)
+    if p["vary"] == "beyond_field":
+        # a zone set-point the protocol field cannot carry: refusing it (ValueError, nothing written) is fine, transmitting it is
+        # judged by C04; accepting the call and transmitting nothing is not ("each accepted call transmits exactly one frame")
+        if refused:
+            ctx.check(len(out["frames"]) == 0, "refused_writes_nothing", detail=dict(detail, frames=len(out["frames"])))
+        else:
+            ctx.check(len(out["frames"]) == 1, "accepted_writes_one_frame", detail=dict(detail, frames=len(out["frames"]), why="accepted, nothing transmitted"))
+        for lab in expect_labels("quick"):
+            ctx.reach(lab)
+        return
     if refused:
         ctx.check(unsupported, "refusal_iff_unsupported", detail=dict(detail, why="refused a supported request"))
         ctx.check(len(out["frames"]) == 0, "refused_writes_nothing", detail=dict(detail, frames=len(out["frames"])))
@@ -168,11 +178,7 @@ def run(ctx, p):
         return
     ctx.check(sym_not(unsupported), "refusal_iff_unsupported", detail=dict(detail, why="accepted an unsupported request"))
     ctx.reach("refused_writes_nothing")
-    if p["vary"] == "beyond_field" and len(out["frames"]) == 0:
-        # beyond what the AT5 field can carry (documented limits 10.0 .. 35.0): the property names no behaviour; see C04
-        for lab in ("accepted_writes_one_frame", "setpoint_rounded_and_clamped", "other_timer_untouched"):
-            ctx.reach(lab)
-        return
+
     ctx.check(len(out["frames"]) == 1, "accepted_writes_one_frame", detail=dict(detail, frames=len(out["frames"])))
     ctx.check(not out["failures"], "accepted_writes_one_frame", detail="unhandled exception")
     data = out["frames"][0]["data"]
